@@ -9,6 +9,12 @@ if variant == 'v2':
     extra = (' Look beyond the most obvious function for this property: prefer the less obvious code that contributes to it '
              '(helpers and utility packages, object pools, plugins and their containers, protocol and codec packages, error and '
              'retry paths, configuration updates) and mechanisms a first reading would not suspect.')
+if variant == 'v3':
+    extra = (' Look beyond the most obvious function for this property, and prefer a trigger that is an INTERACTION rather than a '
+             'single input: state left behind by an earlier operation on the same session, peer or process (deadlines, pooled '
+             'objects, counters, timers, cached values); a neighbouring connection or session of the same process; a plugin or '
+             'hook doing something legitimate with the object it is given; a configuration update at run time; a retry, re-dial '
+             'or error path meeting a second feature; a boundary value of a length, counter or sequence field.')
 for l in open('/verif/properties.jsonl'):
     p = json.loads(l)
     if p['id'] == pid:
